@@ -10,7 +10,10 @@
              anything else ends the word
      Apos  : a word character confirms the apostrophe (-> Word); anything else (a second apostrophe
              too) ends the word, whose trailing apostrophe is dropped
-   A finished word is kept when it has at least MinLen (3) characters (= bytes, ASCII).
+   A finished word is kept when it has at least MinLen (3) and at most MaxWordLen (84) characters
+   (= bytes, ASCII): shorter words are dropped by the parser, longer words are not stored in the index
+   (innodb_ft_min_token_size / innodb_ft_max_token_size; a word of exactly 84 characters IS indexed),
+   so neither can ever match.
    Several columns are one document: the non-NULL column values joined by a space.
 
    Collation: "ci" folds ASCII letters (utf8mb4_0900_ai_ci restricted to ASCII letters, digits,
@@ -20,9 +23,10 @@
    mode documents for InnoDB (no 50 % threshold); stopwords are outside the model: nothing
    generated is on MySQL's stopword list and the engine has none.  The full-text index has NO
    abstract state: MATCH over a table is the filter Match over its current rows. *)
-EXTENDS Integers, Sequences, FiniteSets, TLC
+EXTENDS Integers, Sequences, FiniteSets, TLC, SequencesExt
 
 MinLen == 3
+MaxWordLen == 84
 Apo == 39
 Space == 32
 
@@ -34,7 +38,7 @@ RECURSIVE TrimLeft(_)
 TrimLeft(w) == IF w # <<>> /\ w[1] = Apo THEN TrimLeft(Tail(w)) ELSE w
 
 \* finish the word under construction
-Finish(cur, out) == LET w == TrimRight(TrimLeft(cur)) IN IF Len(w) >= MinLen THEN Append(out, w) ELSE out
+Finish(cur, out) == LET w == TrimRight(TrimLeft(cur)) IN IF Len(w) >= MinLen /\ Len(w) <= MaxWordLen THEN Append(out, w) ELSE out
 
 \* st: "sep" | "word" | "apos"
 RECURSIVE Tok(_, _, _, _, _)
@@ -51,14 +55,30 @@ Tok(d, i, st, cur, out) ==
                 (IF IsWordChar(c) THEN Tok(d, i + 1, "word", Append(cur, c), out)
                  ELSE Tok(d, i + 1, "sep", <<>>, Finish(cur, out)))
 
-Tokenize(d) == Tok(d, 1, "sep", <<>>, <<>>)
+TokenizeSM(d) == Tok(d, 1, "sep", <<>>, <<>>)
+
+\* The same tokenizer written without recursion (TLC spends ~0.1 ms per recursion level, far too much
+\* for documents of several hundred characters): position k belongs to a word iff it holds a word
+\* character or a CONFIRMED apostrophe (a word character on both sides); a word is a maximal run of such
+\* positions.  MC_FullText checks Tokenize = TokenizeSM on every string of <= 6 characters (the rules
+\* look at most one character to either side) and on the long boundary documents.
+ConfirmedApo(d, k) == d[k] = Apo /\ k > 1 /\ k < Len(d) /\ IsWordChar(d[k - 1]) /\ IsWordChar(d[k + 1])
+InWord(d) == {k \in 1..Len(d) : IsWordChar(d[k]) \/ ConfirmedApo(d, k)}
+Tokenize(d) ==
+    LET T == InWord(d)
+        starts == SetToSortSeq({k \in T : (k - 1) \notin T}, <)
+        ends == SetToSortSeq({k \in T : (k + 1) \notin T}, <)
+        runs == [j \in DOMAIN starts |-> SubSeq(d, starts[j], ends[j])]
+    IN SelectSeq(runs, LAMBDA w : Len(w) >= MinLen /\ Len(w) <= MaxWordLen)
 
 FoldChar(c, coll) == IF coll = "ci" /\ c >= 65 /\ c <= 90 THEN c + 32 ELSE c
 Fold(w, coll) == [k \in DOMAIN w |-> FoldChar(w[k], coll)]
 
 Words(d, coll) == LET t == Tokenize(d) IN {Fold(t[k], coll) : k \in DOMAIN t}
 
-Match(d, q, coll) == Words(d, coll) \cap Words(q, coll) # {}
+\* two word sets match when they share a word
+MatchW(dw, qw) == dw \cap qw # {}
+Match(d, q, coll) == MatchW(Words(d, coll), Words(q, coll))
 
 \* a document of several columns; a column is [n |-> is NULL, v |-> code points]
 RECURSIVE JoinCols(_, _)
@@ -70,19 +90,26 @@ Doc(cols) == JoinCols(cols, 1)
 
 \* rows: sequence of [id, cols]; the ids of the rows matching q
 MatchIds(rows, q, coll) == {rows[k].id : k \in {k \in DOMAIN rows : Match(Doc(rows[k].cols), q, coll)}}
+\* the same over word sets computed once per row (dw[k] = Words(Doc(rows[k].cols), coll)) and once per query
+\* (this is only sharing of sub-results: MatchIdsW(rows, [k |-> Words(..)], Words(q)) = MatchIds(rows, q))
+MatchIdsW(rows, dw, qw) == {rows[k].id : k \in {k \in DOMAIN rows : MatchW(dw[k], qw)}}
+
+\* a word of n copies of character c (length-boundary vocabulary)
+Rep(n, c) == [i \in 1..n |-> c]
 
 \* ---- facts about the tokenizer (checked by TLC on MC_FullText) -----------------------------------
 RECURSIVE JoinWords(_, _)
 JoinWords(ws, i) == IF i > Len(ws) THEN <<>> ELSE (IF i > 1 THEN <<Space>> ELSE <<>>) \o ws[i] \o JoinWords(ws, i + 1)
 
 WellFormedWord(w) ==
-    /\ Len(w) >= MinLen
+    /\ Len(w) >= MinLen /\ Len(w) <= MaxWordLen
     /\ w[1] # Apo /\ w[Len(w)] # Apo
     /\ \A k \in DOMAIN w : IsWordChar(w[k]) \/ w[k] = Apo
     /\ \A k \in 1..(Len(w) - 1) : ~(w[k] = Apo /\ w[k + 1] = Apo)
 
 TokenizerSane(d) ==
     LET t == Tokenize(d) IN
+    /\ t = TokenizeSM(d)                                                 \* both formulations agree
     /\ \A k \in DOMAIN t : WellFormedWord(t[k])
     /\ \A k \in DOMAIN t : Tokenize(t[k]) = <<t[k]>>                    \* idempotence
     /\ Tokenize(JoinWords(t, 1)) = t                                    \* words joined by spaces are the same words
